@@ -166,7 +166,8 @@ def export(tier, seed, verdict):
         with open(os.path.join(cdir, "zones.ndjson"), "w") as f:
             for z in zones:
                 f.write(json.dumps(z) + "\n")
-        json.dump(st, open(meta, "w"))
+        json.dump(st, open(meta + ".tmp%d" % os.getpid(), "w"))
+        os.rename(meta + ".tmp%d" % os.getpid(), meta)
     return zones, st
 
 
